@@ -200,7 +200,7 @@ pub proof fn lemma_seg_no_dollar(s: Seq<char>)
 { lemma_seg_unfold(s); }
 //@ obligation lemma_seg_no_dollar props=C17
 
-//@ item expand file=src/sys/fs/path.rs fn=expand props=C17,C05,C12
+//@ item expand file=src/sys/fs/path.rs fn=expand props=C17,C05,C12,C01
 //@ sig pub fn expand<T: AsRef<Path>>(path: T) -> RvResult<PathBuf>
 //@ rw R4 1 ⟦pathstr.matches('~').count()⟧ => ⟦count_char(&pathstr, '~')⟧
 //@ rw R1 * re⟦\bhas_prefix\(path, ("[^"]*")\)⟧ => ⟦has_prefix_lit(path, \1)⟧
